@@ -116,3 +116,91 @@ theorem calLoop_cases (c : Comp Θ S L σ) (n : Nat) (s : State Θ S L σ)
 theorem afterGet_rr (b : Nat) : afterGet (.rr b) = .rr b := rfl
 
 end BlackIt.Calibrator
+
+namespace BlackIt.Calibrator
+variable {Θ S L σ : Type}
+
+/-- forget the nuisance part of the configuration: verbosity, number of jobs, whether a folder is set -/
+def Cfg.strip (g : Cfg) : Cfg := { g with verbose := false, nJobs := 0, folder := false }
+
+def Core.strip (k : Core Θ S L σ) : Core Θ S L σ := { k with cfg := k.cfg.strip }
+
+theorem nextIdx_strip (c : Comp Θ S L σ) (k : Core Θ S L σ) : nextIdx c k.strip = nextIdx c k := rfl
+
+/-- a batch does not look at the nuisance configuration -/
+theorem runBatch_strip (c : Comp Θ S L σ) (t : List (Nat × Nat)) (k : Core Θ S L σ) :
+    runBatch c t k.strip = ((runBatch c t k).1.strip, (runBatch c t k).2) := by
+  unfold runBatch
+  simp only [nextIdx_strip]
+  cases hs : k.samplers[nextIdx c k]? with
+  | none => simp [Core.strip, hs]
+  | some smp =>
+    have hs' : k.strip.samplers[nextIdx c k]? = some smp := hs
+    simp only [hs']
+    by_cases hf : c.fault .sampler k.callsS = true
+    · have hf' : c.fault .sampler k.strip.callsS = true := hf
+      simp [hf, hf', Core.strip]
+    · have hf' : ¬ c.fault .sampler k.strip.callsS = true := hf
+      simp only [hf, hf', if_false]
+      have e1 : k.strip.params = k.params := rfl
+      have e2 : k.strip.losses = k.losses := rfl
+      have e3 : k.strip.cfg.ensemble = k.cfg.ensemble := rfl
+      have e4 : k.strip.callsM = k.callsM := rfl
+      have e5 : k.strip.callsL = k.callsL := rfl
+      simp only [e1, e2, e3, e4, e5]
+      cases hm : firstFault (c.fault .model) k.callsM
+          ((c.sample smp k.params k.losses).2.length * k.cfg.ensemble) with
+      | some j => simp [Core.strip]
+      | none =>
+        simp only
+        cases hl : firstFault (c.fault .loss) k.callsL (c.sample smp k.params k.losses).2.length with
+        | some j => simp [Core.strip]
+        | none => simp [Core.strip, Cfg.strip]
+
+theorem converged_strip (c : Comp Θ S L σ) (k : Core Θ S L σ) : converged c k.strip = converged c k := rfl
+
+end BlackIt.Calibrator
+
+namespace BlackIt.Calibrator
+variable {Θ S L σ : Type}
+
+theorem runBatch_strip_congr (c : Comp Θ S L σ) (t : List (Nat × Nat)) (k k' : Core Θ S L σ)
+    (h : k.strip = k'.strip) :
+    (runBatch c t k).1.strip = (runBatch c t k').1.strip ∧ (runBatch c t k).2 = (runBatch c t k').2 := by
+  have h1 := runBatch_strip c t k
+  have h2 := runBatch_strip c t k'
+  rw [h] at h1
+  rw [h1] at h2
+  exact ⟨(Prod.mk.inj h2).1, (Prod.mk.inj h2).2⟩
+
+/-- the whole loop: two calibrators that differ only in verbosity, number of jobs, saving folder (and in what
+that folder holds) go through the same states, up to those settings, and end the same way -/
+theorem calLoop_strip (c : Comp Θ S L σ) (n : Nat) (s s' : State Θ S L σ)
+    (ht : s.table = s'.table) (hc : s.core.strip = s'.core.strip) :
+    (calLoop c n s).1.core.strip = (calLoop c n s').1.core.strip ∧
+    (calLoop c n s).2 = (calLoop c n s').2 ∧ (calLoop c n s).1.table = (calLoop c n s').1.table := by
+  induction n generalizing s s' with
+  | zero => exact ⟨hc, rfl, ht⟩
+  | succ n ih =>
+    obtain ⟨e1, e2⟩ := runBatch_strip_congr c s.table s.core s'.core hc
+    rcases hrb : runBatch c s.table s.core with ⟨k, f⟩
+    rcases hrb'' : runBatch c s'.table s'.core with ⟨k', f'⟩
+    have hrb' : runBatch c s.table s'.core = (k', f') := by rw [ht]; exact hrb''
+    rw [hrb, hrb'] at e1 e2
+    simp only at e1 e2
+    subst e2
+    cases f with
+    | some f =>
+      rw [calLoop_succ_fault c n s k f hrb, calLoop_succ_fault c n s' k' f hrb'']
+      exact ⟨e1, rfl, ht⟩
+    | none =>
+      rw [calLoop_succ_ok c n s k hrb, calLoop_succ_ok c n s' k' hrb'']
+      have hcv : converged c k = converged c k' := by
+        rw [← converged_strip c k, ← converged_strip c k', e1]
+      rw [hcv]
+      by_cases hc' : converged c k' = true
+      · simp only [hc', if_true]; exact ⟨e1, trivial, ht⟩
+      · simp only [hc', if_false]
+        exact ih (stepState s k) (stepState s' k') ht e1
+
+end BlackIt.Calibrator
